@@ -11,6 +11,7 @@ FIXED = [
     (["C08", "C07"], "semver-numeric-overflow-to-zero", "545d70d", "'1.2.3-99999999999999999999999' parsed as '1.2.3-0'; '1.2.3+18446744073709551616' printed '1.2.3+0'"),
     (["C09"], "pep440-unicode-casefold", "d2c00ca", "'1.0+ſ', '1.0poſt1', '1.0+K' (Kelvin sign) accepted as PEP 440"),
     (["C09", "C07"], "pep440-overflow-to-zero", "b25cab7", "'99999999999.0' -> '0.0', '1.0a99999999999' -> '1.0a0', '1.0+99999999999' -> '1.0+0'"),
+    (["C01", "C09"], "own-check-rejects-output", "35b8d11", "zerv printed '1.0+20260921141320' (14-digit local segment) and `zerv check --format pep440` then rejected it (follow-up to b25cab7: local numeric segments above u32 are now kept verbatim)"),
     (["C16", "C01", "C06", "C15"], "sanitize-non-ascii", "04eaa6e", "--bumped-branch 'fé/日本-x' rendered '1.2.3+fé.日本.x'; Unicode lower-casing mapped İ/K to ASCII letters"),
     (["C16", "C13", "C15"], "panic@src/utils/sanitize.rs", "2bb85a8", "sanitize(value='ééééé', max_length=3) panicked (String::truncate off a char boundary)"),
     (["C16"], "sanitize-leading-zero-after-truncation", "a5e9ed9", "sanitize('00a', max_length=2) = '00' (leading-zero digit segment, not idempotent)"),
@@ -27,6 +28,9 @@ FIXED = [
 
 KNOWN = [
     # (property, key, what)   -- genuine defects recorded instead of repaired
+    ("C01", "semver-emits-numeric-identifier-above-u64",
+     "a run of 20+ digits in free text (e.g. branch '1010...10/x' or a custom value) is emitted as a numeric pre-release identifier above u64: "
+     "valid SemVer 2.0.0 by grammar, but `zerv check --format semver` (and every u64-based SemVer parser) rejects it"),
     ("C04", "flow-hash-len10-overflow",
      "zerv flow --hash-branch-len 10 fails for every branch whose 10-digit hash exceeds 2^32-1 (e.g. branches a, d, dev, master): "
      "'Failed to parse NNNNNNNNNN: number too large to fit in target type' - the documented length 10 does not work for ~57% of branch names"),
